@@ -50,4 +50,22 @@ CLAIMS = {
         'note': TB + 'the version cache is modelled per peer as an Option; TTL expiry and LRU eviction are not modelled. Real two-node transfers per pairing are exercised under C08/C09.',
         'technique': 'Lean 4 proof (fold invariant, induction over call histories) + exhaustive/differential correspondence',
     },
+    'C07': {
+        'text': 'Lean 4 invariant theorem over ALL finite sequences of table operations (add found/inbound, delete, revalidation answers, lookup '
+                'feedback; every random pick): <=16 entries, <=10 replacements, ids unique table-wide, self absent, placement by bucket map, '
+                '/24 limits 2 per bucket and 10 per table. The model reproduces the real Table snapshot field-for-field after every operation of '
+                'generated histories, including revalidation lists and active requests.',
+        'note': TB + 'serial application of operations (the loop serialises them); the deleteNode/revalidation.run data race and the panics guarding '
+                'the revalidation slices are outside the theorem and covered only by the per-snapshot monitor; concurrent drive is not modelled.',
+        'technique': 'Lean 4 invariant proof by induction over operation lists + differential correspondence (snapshot equality)',
+    },
+    'C18': {
+        'text': 'Lean 4 per-step theorems from every table state: additions never remove an entry; an entry leaves only by explicit delete, a failed '
+                'check with credit/3 = 0, or >=5 consecutive failures with >=4 entries; a removed entry is succeeded by a replacement when one exists; '
+                'full-bucket newcomers only become the first replacement (<=10); records change only to a higher seq or on inbound contact and an '
+                'endpoint change clears the verified flag; credit /3 and +1. Tied to the real table by snapshot equality and by the same clauses '
+                'evaluated on consecutive real snapshots.',
+        'note': TB + 'as C07.',
+        'technique': 'Lean 4 decision-logic theorems per operation + differential correspondence',
+    },
 }
